@@ -138,6 +138,21 @@ CHECKS['C08'] = dict(
          'INCOMPLETE/DEPENDENT dimension modes are not modelled.',
     ref='§5 C08')
 
+CHECKS['C09'] = dict(
+    technique='Lean 4 theorems over regular grids in any storage permutation (change counts, strides, sorting) + differential correspondence, exhaustive small scope in thorough',
+    text=('Theorems (Usid/Properties/C09.lean, Usid/Basic/Grid.lean) for EVERY regular grid (any number of dimensions, sizes >= 1, '
+          'any storage permutation): the wrap-around change count of a dimension times its stride equals N (0 for size 1); '
+          'counts are strictly decreasing along the true rate order among dimensions of size > 1; get_dimensionality '
+          'reports the true sizes (= numbers of distinct indices); the order computed by get_sort_order is a permutation '
+          'whose strides equal the true strides for every dimension of size > 1 and which ranks those dimensions exactly '
+          'as the true rate order, for EVERY tie-breaking of the sort. PARTIAL: the statements for get_unit_values and '
+          'create_spec_inds_from_vals are written out (unit_values_statement, rebuild_indices_statement) but not yet '
+          'proved; their statement-by-statement executable models are compared with the implementation and with the '
+          'generator\'s ground truth on every case (thorough: all grids <= 3 dims x sizes <= 3 x all permutations).'),
+    note=COMMON_NOTE + 'Guard: at most as many dimensions as points (the shape heuristic of get_sort_order / '
+         'get_dimensionality transposes otherwise: known finding KF-D5a). uint32 wrap-around not modelled.',
+    ref='§5 C09')
+
 REASON_PENDING = 'check not built yet in this round (planned: Lean model + theorems + correspondence, see DESIGN.md §5)'
 
 
